@@ -1,7 +1,7 @@
 /-
   C18 — request sequences: reference tree, confinement.
 -/
-import LtVerif.Proofs.DavWF
+import LtVerif.Proofs.DavStatus
 
 namespace LtVerif.Dav
 open LtVerif
@@ -39,6 +39,49 @@ theorem run_wf : ∀ (reqs : List Req) (t : Tree), WF t → ConformingRun t reqs
     obtain ⟨h1, _, h3⟩ := hc
     exact run_wf rs _ (step_wf hwf h1) h3
 
+/-- one covered request against the reference, success decided by the reference (`rfcPre`) -/
+theorem step_matches_pre {t : Tree} {r : Req} (hwf : WF t) (hc : Conforming t r) :
+    get (step t r).2 = if rfcPre (get t) r then rfcEffect (get t) r else get t := by
+  by_cases hg : r.m = .get
+  · have h1 : (step t r).2 = t := by simp [step, hg]
+    have h2 : rfcEffect (get t) r = get t := by simp [rfcEffect, hg]
+    rw [h1, h2]; simp
+  · rw [← step_status hwf hc hg]
+    cases hs : isSuccess (step t r).1 with
+    | true =>
+      obtain ⟨h1, h2⟩ := isSuccess_iff.1 hs
+      simp only [↓reduceIte]
+      funext q
+      exact step_effect hwf hc h1 h2 q
+    | false =>
+      simp only [Bool.false_eq_true, ↓reduceIte]
+      by_cases h207 : (step t r).1 = 207
+      · rw [step_207_unchanged hc h207]
+      · have : ¬ Success (step t r).1 := by
+          intro h
+          have := isSuccess_iff.2 ⟨h, h207⟩
+          rw [hs] at this
+          simp at this
+        rw [step_error this]
+
+theorem run_matches_pre : ∀ (reqs : List Req) (t : Tree), WF t → CoveredRun t reqs →
+    get (run t reqs) = refRunPre (get t) reqs ∧ WF (run t reqs)
+  | [], _, hwf, _ => ⟨rfl, hwf⟩
+  | r :: rs, t, hwf, hc => by
+    obtain ⟨h1, h3⟩ := hc
+    simp only [run, refRunPre]
+    rw [← step_matches_pre hwf h1]
+    exact run_matches_pre rs (step t r).2 (step_wf hwf h1) h3
+
+theorem run_decisions : ∀ (reqs : List Req) (t : Tree), WF t → CoveredRun t reqs → (∀ r ∈ reqs, r.m ≠ .get) →
+    (statuses t reqs).map isSuccess = refDecisions (get t) reqs
+  | [], _, _, _, _ => rfl
+  | r :: rs, t, hwf, hc, hg => by
+    obtain ⟨h1, h3⟩ := hc
+    simp only [statuses, List.map_cons, refDecisions]
+    rw [step_status hwf h1 (hg r (List.mem_cons_self ..)), ← step_matches_pre hwf h1,
+      run_decisions rs (step t r).2 (step_wf hwf h1) h3 (fun r' hr' => hg r' (List.mem_cons_of_mem _ hr'))]
+
 /-- requests addressed below `root` -/
 def Below (root : Path) (r : Req) : Prop :=
   under root r.src.segs = true ∧ ∀ d, r.dst = .ok d → under root d.segs = true
@@ -66,5 +109,37 @@ theorem mkDest_below {root : Path} {scheme authority : Bytes} {raw : Option Byte
   · simp only [Dest.ok.injEq] at h
     subst h
     exact under_append _ _
+
+/-! ### executable checks of the hypotheses (for the non-vacuity examples) -/
+
+def wfb (t : Tree) : Bool := t.all fun e => e.1.isEmpty || get t e.1.dropLast == some .dir
+
+theorem get_some_mem {t : Tree} {k : Path} {n : Node} (h : get t k = some n) : (k, n) ∈ t := by
+  induction t with
+  | nil => simp [get] at h
+  | cons e t ih =>
+    obtain ⟨q, m⟩ := e
+    simp only [get] at h
+    split at h
+    · rename_i hq
+      simp only [Option.some.injEq] at h
+      subst hq; subst h
+      exact List.mem_cons_self ..
+    · exact List.mem_cons_of_mem _ (ih h)
+
+theorem wfb_sound {t : Tree} (h : wfb t = true) : WF t := by
+  intro p s n hg
+  have hm := get_some_mem hg
+  have := (List.all_eq_true.1 h) _ hm
+  simpa using this
+
+instance (t : Tree) (r : Req) : Decidable (Conforming t r) := by
+  unfold Conforming; exact inferInstance
+
+instance decCoveredRun : (t : Tree) → (rs : List Req) → Decidable (CoveredRun t rs)
+  | _, [] => isTrue trivial
+  | t, r :: rs =>
+    have := decCoveredRun (step t r).2 rs
+    by unfold CoveredRun; exact inferInstance
 
 end LtVerif.Dav
